@@ -35,6 +35,8 @@ claimed = {
          "bounds: finite connection grammar; two known findings excluded (ServeConn never reports StateNew; first StateActive precedes the first byte)", "§0 C14"),
  "C17": ("the real ServeConn loop with a hijacking handler on a scripted connection: the response is complete (or absent with HijackSetNoResponse) before the hijack handler runs, the handler reads exactly the ≤3/≤6 arbitrary trailing bytes in order whether they were buffered with the request, arrive later or are split, and the connection is closed after the handler unless KeepHijackedConns",
          "bounds as stated; 'server never touches the connection again' not decided", "§0 C17"),
+ "C19": ("the real HostClient.Do/DoTimeout retry loop and transport.RoundTrip against a scripted network: for every fault sequence (write error, EOF, read timeout, oversized response, dial error per dial), method, MaxIdemponentCallAttempts ∈ [-1,3]/[-1,6] (symbolic), RetryIf/RetryIfErr answers and per-attempt time consumption: transmissions ≤ the attempt limit, a non-idempotent request is sent once unless a callback allows more, body streams and oversized responses are never retried, and no transmission starts after the request timeout unless RetryIfErr reset it",
+         "bounds as stated; RetryIfErrUpstream, MaxConnWaitTimeout, TLS and real sockets outside", "§0 C19"),
  "C20": ("the real redirect loop with a recording fake client: one redirect hop whose Location carries ≤2 arbitrary host-label bytes plus look-alike suffixes, ports, userinfo and scheme variants (thorough adds all two-hop chains over the fixed suffix grammar): credentials are never sent to a host that is neither a.co nor a dot-suffix subdomain, at most MaxRedirects hops are followed, 303 becomes a body-less GET/HEAD and POST becomes GET on 301/302",
          "bounds as stated; IPv6/percent-escaped hosts and Client/HostClient wrappers outside", "§0 C20"),
  "C24": ("ParseByteRange clause: for every range spec of ≤5/≤7 arbitrary bytes and every non-negative content length an accepted range satisfies 0 ≤ start ≤ end < length; the three RFC 9110 forms with ≤3/≤5 symbolic digits are accepted iff satisfiable with the right values",
@@ -64,7 +66,6 @@ na = {
  "C15": "not built: Shutdown needs a listener, Serve's accept loop and wall-clock polling; not brought up under the interpreter in this build",
  "C16": "not built: TimeoutHandler interleavings need preemption inside the handler goroutine; the cooperative scheduler only switches at blocking points and this harness was not written",
  "C18": "not built: the inductive step over HostClient's pool operations needs a representation invariant for conns/connsWait/wantConn that was not written in this build",
- "C19": "not built: HostClient.Do with a symbolic fault sequence needs the client path under the interpreter (see C04)",
  "C21": "not built: requires the client dial path with a stubbed TLS stack under the interpreter (see C04)",
  "C22": "codec internals (compress/flate, brotli, zstd) are loops over whole buffers that a bit-blasting back end cannot decide, and the abstraction of codecs as uninterpreted functions plus the stackless queue oracle was not built",
  "C23": "not built: fsHandler.handleRequest depends on os/io-fs calls that need a harness file system; not brought up under the interpreter in this build",
